@@ -153,3 +153,24 @@ func (e *MetaCDC) VerifSnapshot() VerifSnapshot {
 func NewCDCHandlerForVerif(svc CDCService, cfg *CDCServerConfig) http.Handler {
 	return (&CDCServer{api: svc, serverConfig: cfg}).getCDCHandler()
 }
+
+// VerifShutdown stops every reader and releases every replicate entity without touching the store
+// (what the death of the process does to the goroutines of an incarnation).
+func (e *MetaCDC) VerifShutdown() {
+	e.replicateEntityMap.Lock()
+	defer e.replicateEntityMap.Unlock()
+	for k, ent := range e.replicateEntityMap.data {
+		var ids []string
+		ent.taskQuitFuncs.Range(func(id string, _ func()) bool {
+			ids = append(ids, id)
+			return true
+		})
+		for _, id := range ids {
+			if quit, ok := ent.taskQuitFuncs.GetAndRemove(id); ok {
+				quit()
+			}
+		}
+		ent.entityQuitFunc()
+		delete(e.replicateEntityMap.data, k)
+	}
+}
